@@ -16,7 +16,7 @@ RULE = ("two-stage runs: stage 1 builds the generated system fault-free, stage 2
 ASSUMPTIONS = wa.ASSUMPTIONS
 REAL_VS_STUB = wa.REAL_VS_STUB
 PROBES = wa.PROBES + ["atoms_supplied", "centres_supplied", "supplied_and_generated_in_one_system",
-                      "ignored_molecule_present", "ignored_molecule_not_last", "earlier_call_same_input_path", "pdb_input", "synthetic_centres"]
+                      "ignored_molecule_present", "ignored_molecule_not_last", "earlier_call_same_input_path", "pdb_input", "synthetic_centres", "ligand_placed_with_host"]
 PROFILE = {"p_synth_centres": 0.25, "sol_p": 0.25, "p_pdb": 0.2, "p_pre_call": 0.3, "n_moltypes": (1, 3), "n_entries": (2, 4), "max_molecules": 8, "max_count": 3, "maxres": 7,
            "box_modes": ["cubic", "cubic", "noncubic", "density"], "faults": ["step", "start", "overlap"],
            "maxiter": [0, 1, 2, 800], "dilute_hint": True}
@@ -28,6 +28,14 @@ def n_runs(tier):
 
 def gen_job(verif_seed, tier, index):
     job, st = jobgen.base_job(PROP, verif_seed, tier, index, PROFILE)
+    if st.gen.random() < 0.08 and jobgen.prepare_ligands(job, st.gen):
+        # -lig: the host molecules are supplied (mostly as residue centres), the ligand molecules are missing
+        ok = jobgen.add_coordinates(job, st.gen, PROFILE, cut_at_instance=job["lig_plan"]["first"])
+        ok = ok and jobgen.finish_ligands(job, st.gen)
+        if not ok:
+            job.pop("coord_text", None)
+        job["two_stage"] = ok
+        return job
     ok = jobgen.add_coordinates(job, st.gen, PROFILE)
     job["two_stage"] = ok
     return job
